@@ -104,10 +104,13 @@ class StaticFileHandler(RequestHandler):
         requested_path = canonical_path(request.path).lstrip("/")
 
         # Construct the full file path
+        # Resolve strictly: the non-strict form can hand back a path that still
+        # ends in a symlink (when a link target passes through the link itself),
+        # which would slip through the containment check below
         try:
-            file_path = (self.document_root / requested_path).resolve()
+            file_path = (self.document_root / requested_path).resolve(strict=True)
         except (OSError, RuntimeError, ValueError):
-            # Symlink loop, embedded NUL, over-long name: nothing to serve
+            # Missing, symlink loop, embedded NUL, over-long name: nothing to serve
             return GeminiResponse(status=StatusCode.NOT_FOUND.value, meta="Not found")
 
         # Path traversal protection: ensure the resolved path is within document root
@@ -127,7 +130,10 @@ class StaticFileHandler(RequestHandler):
                 index_path = file_path / index_name
                 if index_path.exists() and index_path.is_file():
                     # The index may itself be a symlink: resolve and re-check
-                    index_path = index_path.resolve()
+                    try:
+                        index_path = index_path.resolve(strict=True)
+                    except (OSError, RuntimeError, ValueError):
+                        continue
                     if not self._is_safe_path(index_path):
                         continue
                     file_path = index_path
